@@ -32,6 +32,7 @@ type Verifier struct {
 	mu      sync.Mutex
 	initOnlyGlobals map[string]bool // state var names of globals assigned only in init
 	nonNilGlobals   map[string]bool
+	errNewGlobals   map[string]bool // init-only globals whose initialiser is errors.New(...)
 	globalSorts     map[string]Sort
 	regexGlobals    map[string]string // state var name -> pattern
 }
@@ -84,6 +85,7 @@ func loadVerifier(repo, specDir string) (*Verifier, error) {
 func (v *Verifier) analyseGlobals() {
 	v.initOnlyGlobals = map[string]bool{}
 	v.nonNilGlobals = map[string]bool{}
+	v.errNewGlobals = map[string]bool{}
 	v.globalSorts = map[string]Sort{}
 	v.regexGlobals = map[string]string{}
 	written := map[*ssa.Global]bool{}
@@ -160,6 +162,9 @@ func (v *Verifier) analyseGlobals() {
 						}
 					case "errors.New", "container/list.New":
 						v.nonNilGlobals[name] = true
+						if f.String() == "errors.New" {
+							v.errNewGlobals[name] = true
+						}
 					case "reflect.TypeOf":
 						if mi, ok := x.Common().Args[0].(*ssa.MakeInterface); ok {
 							_ = mi
